@@ -137,3 +137,44 @@ def xview(E, off):
 def same(a, b):
     """identical values (SMT: equality of the boxed terms)"""
     return a == b
+
+
+def dlog(d):
+    """insertion log of a dict built by in-order insertion: here the final (key, value) pairs in order"""
+    return list(d.items())
+
+
+def url_path(u):
+    from urllib.parse import urlparse
+    return urlparse(u).path
+
+
+def url_query(u):
+    from urllib.parse import urlparse
+    return urlparse(u).query
+
+
+def url_ok(u):
+    from urllib.parse import urlparse
+    try:
+        urlparse(u)
+        return True
+    except ValueError:
+        return False
+
+
+def qsl(q):
+    from urllib.parse import parse_qsl
+    return parse_qsl(q)
+
+
+def ws_split(s):
+    return s.split()
+
+
+def is_response(x):
+    return type(x).__name__ == "HttpResponse"
+
+
+def is_request(x):
+    return type(x).__name__ == "HttpRequest"
